@@ -301,6 +301,10 @@ var rules = []rule{
 		{"driver_opts", M{"external": true}, M{"name": "real"}, M{"driver_opts": M{"type": "nfs"}}},
 		{"labels", M{"external": true}, M{"name": "real"}, M{"labels": M{"a": "b"}}},
 		{"external-added", M{"driver": "local"}, M{"labels": M{"a": "b"}}, M{"external": true}},
+		// `external` given as a string (the schema admits it) or through a variable is external all the same
+		{"driver/external-quoted", M{"external": "true"}, M{"name": "real"}, M{"driver": "local"}},
+		{"driver_opts/external-variable", M{"external": "${C10_TRUE}"}, M{"name": "real"}, M{"driver_opts": M{"type": "nfs"}}},
+		{"labels/external-variable-default", M{"external": "${C10_UNSET:-true}"}, M{"name": "real"}, M{"labels": M{"a": "b"}}},
 	}},
 	{"secret-several-sources", scSecret, []variant{
 		{"file+environment", M{"file": "./s.txt"}, M{"labels": M{"a": "b"}}, M{"environment": "SEC"}},
@@ -540,7 +544,7 @@ func toYAML(m M) string {
 }
 
 func (d *doc) toCase() *ld.Case {
-	c := &ld.Case{Files: map[string]string{}, ComposeFiles: []string{"compose.yaml"}, Env: map[string]string{"SEC2": "s", "CFG3": "c"}}
+	c := &ld.Case{Files: map[string]string{}, ComposeFiles: []string{"compose.yaml"}, Env: map[string]string{"SEC2": "s", "CFG3": "c", "C10_TRUE": "true"}}
 	main := clone(d.main).(M)
 	if d.usesInc {
 		main["include"] = L{"inc/compose.yaml"}
